@@ -253,6 +253,10 @@ def evalLine (line : String) : String :=
     | some rb, some preb =>
       hex (Resgate.Gw.toBytes (Enc.ridToPath (Resgate.Gw.ofBytes rb) (Resgate.Gw.ofBytes preb)))
     | _, _ => "bad-op"
+  | ["ridpathb", r, pre] =>
+    match unhex r, unhex pre with
+    | some rb, some preb => hex (Enc.ridToPathB rb preb)
+    | _, _ => "bad-op"
   | "enc" :: flat :: pre :: root :: nodes =>
     -- nodes: <ridhex>:m:<khex>=<v>,...  |  <ridhex>:c:<v>,...  |  <ridhex>:e:<jsonhex>
     let str := fun (h : String) => (unhex h).map Resgate.Gw.ofBytes
